@@ -179,6 +179,12 @@ class SRTM30:
 
             List of tile names that contain the elevation data for the ROI.
         """
+        # Work in double precision: in single precision (e.g. numpy.float32
+        # arguments) the modulo below merges edges that are less than 3e-5
+        # degrees apart and a thin rectangle would not overlap with any tile.
+        lat_min, lon_min = float(lat_min), float(lon_min)
+        lat_max, lon_max = float(lat_max), float(lon_max)
+
         # The western edge is mapped to [-180, 180), the eastern edge to
         # (-180, 180], so that a rectangle may start at -180 and end at 180.
         lon_min = lon_min % 360
